@@ -278,7 +278,7 @@ func generate(t *toolchain, f FileSpec) (out genOutcome) {
 		out.BuildErr, out.Output = firstLines(o, 12), o
 		return
 	}
-	if o, err := run(t.dir, "go", "test", "-count=1", "-timeout=60s", "./cases/"+caseDir+"/"); err != nil {
+	if o, err := run(t.dir, "go", "test", "-count=1", "-timeout=180s", "./cases/"+caseDir+"/"); err != nil {
 		out.TestErr, out.Output = firstLines(o, 12), o
 		return
 	}
